@@ -68,3 +68,7 @@ native('C01.convolution_grid', ['C01'], 'bounded', 'fold lores of <= 3 records, 
        'crates/air-lib/trace-handler/src/merger/fold_merger/fold_lore_resolver.rs', 'convolution_grid.rs', 'verif_native_convolution_grid::convolution_matches_reference_and_never_panics',
        what='compute_lens_convolution never panics on hostile lens, errs exactly when the running total overflows u32, and otherwise equals a reference convolution computed in u64; paired refuter of unit convolution',
        pairs=['convolution:compute_lens_convolution', 'convolution:compute_before_lens'])
+native('C25.canonical', ['C25'], 'bounded', 'about 50 boundary JSON values (integers at the i64/u64 edges, floats, escaped/unicode strings, nested arrays and objects) and all their pairs', 'air-interpreter-data',
+       'crates/air-lib/interpreter-data/src/cid_store.rs', 'cid_canonical.rs', 'verif_native_cid_canonical::content_ids_are_canonical',
+       what='real hashes: the id of a JValue equals the id of the same serde_json value and of its canonical text; key insertion order is irrelevant; '
+            'verify_value(cid(v), w) is Ok exactly when v == w (the serialisation/digest functions are external in the Verus unit cid_verify)')
